@@ -20,7 +20,7 @@ ID = 'C06'
 HASHSEED_IS_VIOLATION = False
 
 TIERS = {
-    'quick': {'runs': 16000, 'replica_runs': 300, 'hash_seeds': [1, 4242], 'timeout_s': 420, 'shrink_s': 40},
+    'quick': {'runs': 48000, 'replica_runs': 600, 'hash_seeds': [1, 4242], 'timeout_s': 420, 'shrink_s': 40},
     'thorough': {'runs': 400000, 'replica_runs': 3000, 'hash_seeds': [1, 7, 99, 4242, 31337],
                  'timeout_s': 3000, 'shrink_s': 120},
 }
